@@ -43,24 +43,46 @@ _INST_KEEP = []     # keeps the applications alive so that their ids are not reu
 UNFOLD_DEPTH = 2
 
 
-def spec_apps(exprs):
-    """all applications of spec functions occurring in the given z3 expressions"""
+_APPS_CACHE = {}      # top-level expr id -> (expr kept alive, [ground spec applications])
+
+
+def _apps_of(e):
+    k = e.get_id()
+    hit = _APPS_CACHE.get(k)
+    if hit is not None:
+        return hit[1]
     seen = set()
     out = []
-    stack = list(exprs)
+    stack = [(e, False)]
     while stack:
-        e = stack.pop()
-        if e.get_id() in seen:
+        x, under_q = stack.pop()
+        xid = x.get_id()
+        if xid in seen:
             continue
-        seen.add(e.get_id())
-        if z3.is_quantifier(e):
-            stack.append(e.body())
+        seen.add(xid)
+        if z3.is_quantifier(x):
+            stack.append((x.body(), True))
             continue
-        if z3.is_app(e):
-            d = e.decl()
-            if d.kind() == z3.Z3_OP_UNINTERPRETED and d.arity() > 0 and d.name() in _BY_DECL:
-                out.append(e)
-            stack.extend(e.children())
+        if z3.is_app(x):
+            d = x.decl()
+            if d.kind() == z3.Z3_OP_UNINTERPRETED and x.num_args() > 0 and d.name() in _BY_DECL:
+                if not (under_q and _has_bound_var(x)):
+                    out.append(x)
+            for c in x.children():
+                stack.append((c, under_q))
+    _APPS_CACHE[k] = (e, out)
+    return out
+
+
+def spec_apps(exprs):
+    """all ground applications of spec functions occurring in the given z3 expressions"""
+    seen = set()
+    out = []
+    for e in exprs:
+        for a in _apps_of(e):
+            if a.get_id() not in seen:
+                seen.add(a.get_id())
+                out.append(a)
     return out
 
 
@@ -88,7 +110,7 @@ def unfold_closure(exprs, depth=None):
     for _ in range(depth):
         new = []
         for app in spec_apps(frontier):
-            if app.get_id() in done or _has_bound_var(app):
+            if app.get_id() in done:
                 continue
             done.add(app.get_id())
             fn = _BY_DECL[app.decl().name()]
@@ -107,7 +129,7 @@ def unfold_closure(exprs, depth=None):
         frontier = new
     # applications left un-unfolded at the depth limit still get their lemma facts
     for app in spec_apps(frontier):
-        if app.get_id() in done or _has_bound_var(app):
+        if app.get_id() in done:
             continue
         done.add(app.get_id())
         li = _BY_DECL[app.decl().name()].lemma_instance(app)
